@@ -23,6 +23,8 @@
                  `potential_translation_invariant`, `potential_translation_invariant_arrays` (common shift of
                  points and centres), `potential_no_centres`, `potential_zero_coefficients`,
                  `potential_coincident_centres`, `potential_at_centre`
+  * `Linear.lean` (round 6) about the GENERATED `coulomb_potential`: `potential_homogeneous`, `potential_additive_split`,
+                 `potential_no_coefficient_skipped` (linear in the coefficients, no function dropped)
   Closed forms, multi-centre routine, loader and table are regenerated from `/repo`
   (`Gen/Coulomb.lean`, `Gen/CoulombPotential.lean`, `Gen/CoulombLoader.lean`,
   `Gen/CoulombParams.lean`) on every run; `erf` is `realErf` (its integral).
@@ -34,3 +36,4 @@ import GridVerif.Props.C17.MultiGen
 import GridVerif.Props.C17.Table
 import GridVerif.Props.C17.Loader
 import GridVerif.Props.C17.Translate
+import GridVerif.Props.C17.Linear
